@@ -421,7 +421,7 @@ def weave_fn(sc, fb, reach=False):
     if fb.lift is not None:
         it, raw = lift_block(fb, it)
     rules = fb.opts.get('rules')
-    rules = rules.split(',') if rules else ['R0', 'R1', 'R7', 'R8', 'R2', 'R3', 'R9', 'R10', 'R11', 'R12', 'R13', 'R15', 'R16', 'R17', 'R18', 'R20', 'R21', 'R22', 'R23', 'R24', 'R25', 'R26', 'R27', 'R28', 'R29', 'R21b', 'R30', 'R31', 'R32', 'R22b', 'R16b', 'R0b', 'R33', 'R34', 'R35', 'R36', 'R37', 'R38', 'R39', 'R40']
+    rules = rules.split(',') if rules else ['R0', 'R1', 'R7', 'R8', 'R2', 'R3', 'R9', 'R10', 'R11', 'R12', 'R13', 'R15', 'R16', 'R17', 'R18', 'R20', 'R21', 'R22', 'R23', 'R24', 'R25', 'R26', 'R27', 'R28', 'R29', 'R21b', 'R30', 'R31', 'R32', 'R22b', 'R16b', 'R0b', 'R33', 'R34', 'R35', 'R36', 'R37', 'R38', 'R39', 'R40', 'R41', 'R42', 'R43']
     counts = {}
     try:
         # phase A: line-preserving token rewrites
@@ -469,7 +469,21 @@ def weave_fn(sc, fb, reach=False):
                     first = (last_semi + 1) if last_semi is not None else bo + 1
                     if first >= bc:
                         raise WeaveError(f'{fb.path}: bindtail: the body has no tail expression')
-                    if toks[first].kind == 'ident' and toks[first].text in ('for', 'while', 'loop', 'let'):
+                    # block statements (loops) between the last `;` and the tail expression are skipped
+                    while first < bc and toks[first].kind == 'ident' and toks[first].text in ('for', 'while', 'loop'):
+                        q, pd = first + 1, 0
+                        while q < bc and not (toks[q].text == '{' and pd == 0):
+                            if toks[q].text in '([':
+                                pd += 1
+                            elif toks[q].text in ')]':
+                                pd -= 1
+                            q += 1
+                        if q >= bc:
+                            raise WeaveError(f'{fb.path}: bindtail: cannot find the body of the loop that precedes the tail expression')
+                        first = match_close(toks, q) + 1
+                    if first >= bc:
+                        raise WeaveError(f'{fb.path}: bindtail: the body has no tail expression')
+                    if toks[first].kind == 'ident' and toks[first].text == 'let':
                         raise WeaveError(f'{fb.path}: bindtail: a block statement precedes the tail expression')
                     ins = ''.join(l + '\n' for l, _ in alines)
                     inserts.append((toks[first].start, f'let {rx} = '))
@@ -521,7 +535,7 @@ def weave_fn(sc, fb, reach=False):
             text, origin = apply_inserts(text, origin, inserts)
             # phase C: loop desugarings (line preserving)
             before = text.count('\n')
-            text, c = desugar(text, [r for r in rules if r in ('R2', 'R3', 'R9', 'R10', 'R11', 'R12', 'R13', 'R15', 'R16', 'R17', 'R18', 'R20', 'R21', 'R22', 'R23', 'R24', 'R25', 'R26', 'R27', 'R29', 'R21b', 'R30', 'R31', 'R32', 'R22b', 'R16b', 'R0b', 'R33', 'R34', 'R35', 'R36', 'R37', 'R38', 'R39', 'R40')])
+            text, c = desugar(text, [r for r in rules if r in ('R2', 'R3', 'R9', 'R10', 'R11', 'R12', 'R13', 'R15', 'R16', 'R17', 'R18', 'R20', 'R21', 'R22', 'R23', 'R24', 'R25', 'R26', 'R27', 'R29', 'R21b', 'R30', 'R31', 'R32', 'R22b', 'R16b', 'R0b', 'R33', 'R34', 'R35', 'R36', 'R37', 'R38', 'R39', 'R40', 'R41', 'R42', 'R43')])
             counts.update(c)
             if text.count('\n') != before:
                 raise WeaveError(f'internal: desugaring changed the line count of {fb.path}')
